@@ -41,6 +41,11 @@ def run(ctx):
 
 
 def run_cfg(ctx, p, cfg):
+    if "config_parsing" in p.meta.get("features", []):
+        # "without panicking": the reloader installs what the lossy build kept; the install indexes the appender table by every
+        # name a logger still refers to, so no dangling reference may survive the build (C13.V2 re-evaluated)
+        from rules import c13
+        c13.rule_retention(ctx, p, cfg, "A10")
     with ctx.rule("A1", "one snapshot per call", cfg) as r:
         snap, lf = snapshot_adt(p)
         for path in (anchors.LOG_LOG, anchors.LOG_ENABLED, anchors.LOG_FLUSH):
